@@ -1,4 +1,5 @@
 """C07 — MACs equal ISO 9797-1 algorithm 1 (CBC-MAC) and algorithm 3 (retail MAC)."""
+import core
 from core import Case, enc_b, enc_i, psec
 
 OBLIGATIONS = ["Psec.Props.C07.cbcMac_des_eq_mac1", "Psec.Props.C07.cbcMac_aes_eq_mac1", "Psec.Props.C07.cbcMac_default_length", "Psec.Props.C07.mac1_truncation", "Psec.Props.C07.mac3_truncation", "Psec.Props.C07.retailMac_eq_mac3", "Psec.Props.C07.retail_single_block", "Psec.Props.C07.mac_bad_padding"]
@@ -57,6 +58,25 @@ def generate(rng, tier, seed):
                             return f"retail MAC {r.value.hex()} != ISO 9797-1 algorithm 3 {rep[i]}"
                     c.pred("retail MAC = ISO 9797-1 algorithm 3", p)
                     yield c
+    # long messages around the sizes an implementation might chunk or buffer at
+    for ln in core.big_lengths(rng, tier, 16):
+        for algname, alg, bs, ks in (("des", A.DES, 8, 16), ("aes", A.AES, 16, rng.choice((16, 24, 32)))):
+            padding = rng.choice((1, 2, 3)) if ln % 4096 else rng.choice((1, 3))
+            key, data = rb(rng, ks), rb(rng, ln)
+            c = Case(f"cbc_mac:{algname}:long", {"len": ln, "padding": padding})
+            r = c.call("mac.generate_cbc_mac", key, data, padding, None, alg)
+            i = c.line(f"spec.mac1\ta:{algname}\t{enc_b(key)}\ti:{padding}\t{enc_b(data)}\ti:{bs}")
+            c.pred("CBC-MAC = ISO 9797-1 algorithm 1 (long message)",
+                   lambda rep, r=r, i=i: None if (r.ok and rep[i] == "ok\t" + enc_b(r.value)) else f"{r.value.hex() if r.ok else r.err} != {rep[i]}")
+            yield c
+        padding = rng.choice((1, 2, 3))
+        k1, k2, data = rb(rng, rng.choice((8, 16, 24))), rb(rng, rng.choice((8, 16, 24))), rb(rng, ln)
+        c = Case("retail_mac:long", {"len": ln, "padding": padding})
+        r = c.call("mac.generate_retail_mac", k1, k2, data, padding, None)
+        i = c.line(f"spec.mac3\t{enc_b(k1)}\t{enc_b(k2)}\ti:{padding}\t{enc_b(data)}\ti:8")
+        c.pred("retail MAC = ISO 9797-1 algorithm 3 (long message)",
+               lambda rep, r=r, i=i: None if (r.ok and rep[i] == "ok\t" + enc_b(r.value)) else f"{r.value.hex() if r.ok else r.err} != {rep[i]}")
+        yield c
     # oracle-free identity: one-block message (padding 1, 8 bytes): MAC = E_k1(D_k2(E_k1(D1)))
     for _ in range(60 * reps):
         k1, k2, d1 = rb(rng, rng.choice((8, 16, 24))), rb(rng, rng.choice((8, 16, 24))), rb(rng, 8)
